@@ -22,15 +22,15 @@ func init() {
 
 	addVariants(
 		Variant{ID: "c13-r1-string-boundary", Prop: "C13", File: "replication/binlog_event_rbr.go",
-			Old: "\t\t// This is a real string. The length is weird.\n\t\tmax := int((((metadata >> 4) & 0x300) ^ 0x300) + (metadata & 0xff))\n\t\t// Length is encoded in 1 or 2 bytes.\n\t\tif max > 255 {\n\t\t\tl := int(uint64(data[pos]) |\n\t\t\t\tuint64(data[pos+1])<<8)\n\t\t\treturn data[pos+2 : pos+2+l], l + 2, nil",
-			New: "\t\t// This is a real string. The length is weird.\n\t\tmax := int((((metadata >> 4) & 0x300) ^ 0x300) + (metadata & 0xff))\n\t\t// Length is encoded in 1 or 2 bytes.\n\t\tif max > 255 {\n\t\t\tl := int(uint64(data[pos]) |\n\t\t\t\tuint64(data[pos+1])<<8)\n\t\t\treturn data[pos+2 : pos+1+l], l + 2, nil",
+			Old:    "\t\t// This is a real string. The length is weird.\n\t\tmax := int((((metadata >> 4) & 0x300) ^ 0x300) + (metadata & 0xff))\n\t\t// Length is encoded in 1 or 2 bytes.\n\t\tif max > 255 {\n\t\t\tl := int(uint64(data[pos]) |\n\t\t\t\tuint64(data[pos+1])<<8)\n\t\t\treturn data[pos+2 : pos+2+l], l + 2, nil",
+			New:    "\t\t// This is a real string. The length is weird.\n\t\tmax := int((((metadata >> 4) & 0x300) ^ 0x300) + (metadata & 0xff))\n\t\t// Length is encoded in 1 or 2 bytes.\n\t\tif max > 255 {\n\t\t\tl := int(uint64(data[pos]) |\n\t\t\t\tuint64(data[pos+1])<<8)\n\t\t\treturn data[pos+2 : pos+1+l], l + 2, nil",
 			Expect: "C13-R1 verbatim@TypeString"},
 		Variant{ID: "c13-r1-trim-trailing", Prop: "C13", File: "replication/binlog_event_rbr.go",
 			Old: "\t\tl := int(data[pos])\n\t\treturn data[pos+1 : pos+1+l], l + 1, nil\n\n\tcase TypeBit:", New: "\t\tl := int(data[pos])\n\t\treturn bytes.TrimRight(data[pos+1:pos+1+l], \" \"), l + 1, nil\n\n\tcase TypeBit:",
 			Expect: "C13-R1 verbatim@TypeVarchar"},
 		Variant{ID: "c13-r1-blob3-width", Prop: "C13", File: "replication/binlog_event_rbr.go",
-			Old: "\t\tcase 3:\n\t\t\tl = int(uint32(data[pos]) |\n\t\t\t\tuint32(data[pos+1])<<8 |\n\t\t\t\tuint32(data[pos+2])<<16)\n\t\tcase 4:\n\t\t\tl = int(uint32(data[pos]) |\n\t\t\t\tuint32(data[pos+1])<<8 |\n\t\t\t\tuint32(data[pos+2])<<16 |\n\t\t\t\tuint32(data[pos+3])<<24)\n\t\tdefault:\n\t\t\treturn nil, 0, fmt.Errorf(\"unsupported blob metadata",
-			New: "\t\tcase 3:\n\t\t\tl = int(uint32(data[pos]) |\n\t\t\t\tuint32(data[pos+1])<<8 |\n\t\t\t\tuint32(data[pos+2])<<24)\n\t\tcase 4:\n\t\t\tl = int(uint32(data[pos]) |\n\t\t\t\tuint32(data[pos+1])<<8 |\n\t\t\t\tuint32(data[pos+2])<<16 |\n\t\t\t\tuint32(data[pos+3])<<24)\n\t\tdefault:\n\t\t\treturn nil, 0, fmt.Errorf(\"unsupported blob metadata",
+			Old:    "\t\tcase 3:\n\t\t\tl = int(uint32(data[pos]) |\n\t\t\t\tuint32(data[pos+1])<<8 |\n\t\t\t\tuint32(data[pos+2])<<16)\n\t\tcase 4:\n\t\t\tl = int(uint32(data[pos]) |\n\t\t\t\tuint32(data[pos+1])<<8 |\n\t\t\t\tuint32(data[pos+2])<<16 |\n\t\t\t\tuint32(data[pos+3])<<24)\n\t\tdefault:\n\t\t\treturn nil, 0, fmt.Errorf(\"unsupported blob metadata",
+			New:    "\t\tcase 3:\n\t\t\tl = int(uint32(data[pos]) |\n\t\t\t\tuint32(data[pos+1])<<8 |\n\t\t\t\tuint32(data[pos+2])<<24)\n\t\tcase 4:\n\t\t\tl = int(uint32(data[pos]) |\n\t\t\t\tuint32(data[pos+1])<<8 |\n\t\t\t\tuint32(data[pos+2])<<16 |\n\t\t\t\tuint32(data[pos+3])<<24)\n\t\tdefault:\n\t\t\treturn nil, 0, fmt.Errorf(\"unsupported blob metadata",
 			Expect: "C13-R1 verbatim@Type"},
 		Variant{ID: "c13-r2-null-as-empty", Prop: "C13", File: "streamer.go",
 			Old: "\t\tif rs.Rows[rowIndex].NullColumns.Bit(valueIndex) {\n\t\t\tcolumn.Data = nil\n", New: "\t\tif rs.Rows[rowIndex].NullColumns.Bit(valueIndex) {\n\t\t\tcolumn.Data = []byte{}\n",
